@@ -354,7 +354,7 @@ theorem erase_transparent_step (f : Nat) (ev : Ev) (c : Op) (env : Env) :
       simp [unStep, hph]
     | stop =>
       refine ⟨env.stop, ?_⟩
-      have hp := running_phase specs (f + 1) .stop c hph
+      have hp := running_phase specs f .stop c hph
       unfold PhaseOk at hp
       simp only [unStep, UnKind.forwardsStop, if_true, unWrap]
       cases hr : (deliver specs (f + 1) .stop c).2.2 with
@@ -362,7 +362,7 @@ theorem erase_transparent_step (f : Nat) (ev : Ev) (c : Op) (env : Env) :
       | some o => simp [hr] at hp ⊢; simp [hp, UnKind.map]
     | complete i o =>
       refine ⟨env, ?_⟩
-      have hp := running_phase specs (f + 1) (.complete i o) c hph
+      have hp := running_phase specs f (.complete i o) c hph
       unfold PhaseOk at hp
       simp only [unStep, unWrap]
       cases hr : (deliver specs (f + 1) (.complete i o) c).2.2 with
